@@ -333,7 +333,7 @@ def lean_arm(rows):
     return "[" + ", ".join('("' + g + '", [' + ", ".join(f'"{a}"' for a in acts) + "])" for g, acts in rows) + "]"
 
 
-GROUPS = ["cancel", "mismatch", "exit", "setdef", "escape", "signals", "sighandler", "termchild", "termexit", "delayloop", "drainloop", "mainloop", "placeholders", "xml"]
+GROUPS = ["cancel", "mismatch", "exit", "setdef", "escape", "signals", "sighandler", "termchild", "termexit", "delayloop", "drainloop", "drainexit", "mainloop", "placeholders", "xml"]
 
 
 def group_lines(g):
@@ -392,6 +392,11 @@ def group_lines(g):
         arms = request_arms(strip_comments(read("nextest-runner/src/runner/unix.rs")), "terminate_child", keys)
         return ["/-- unix.rs `terminate_child`: what happens when the grace period runs out, and when the process exits first -/"] + [
                 f"def terminateChild{k}Arm : List (String × List String) := {lean_arm(arms[k])}" for k in ("GraceExpired", "ChildExited")]
+    if g == "drainexit":
+        keys = {"LeakTimerFired": r"\(\) = &mut sleep, if !child_acc\.fds\.is_done\(\)", "FdsDone": r"else"}
+        arms = request_arms(strip_comments(read("nextest-runner/src/runner/executor.rs")), "detect_fd_leaks", keys)
+        return ["/-- executor.rs `detect_fd_leaks`: how its loop ends — the leak timer fires, or both pipes are done; the value is `leaked` -/"] + [
+                f"def drain{k}Arm : List (String × List String) := {lean_arm(arms[k])}" for k in ("LeakTimerFired", "FdsDone")]
     if g == "mainloop":
         keys = {"Stop": r"SignalRequest::Stop\(\w+\)", "Continue": r"SignalRequest::Continue"}
         arms = request_arms(strip_comments(read("nextest-runner/src/runner/executor.rs")), "handle_signal_request", keys)
